@@ -120,7 +120,7 @@ func checkHandlerCtxProvenance(c *Ctx, p *Prog, R *BusRoles) {
 					n++
 					os := flow.Origins(v)
 					okAll, bad := onlyOrigins(os, "param:"+FuncDisplay(f)+".ctx", "param:"+FuncDisplay(R.DispatchFn)+".", "param:"+FuncDisplay(R.PublishFn)+"."+R.PublishFn.Params[1].Name(), "call:invoke:Observability.OnPublishStart#0")
-					construct := FuncDisplay(f) + "/handler-context@" + p.Pos(in.Pos())
+					construct := fmt.Sprintf("%s/handler-context#%d", FuncDisplay(f), n)
 					if okAll && len(os) > 0 {
 						c.Discharge("C08.R2", construct, p.Pos(in.Pos()), "handler context originates from the dispatch function's ctx parameter (through Observability.OnHandlerStart only)")
 					} else {
